@@ -5,6 +5,7 @@ import (
 	"math/rand"
 	"sort"
 	"time"
+	"unsafe"
 
 	"golang.org/x/exp/constraints"
 	"pipelined.dev/signal"
@@ -89,13 +90,7 @@ func floatsAs[S constraints.Float](vals []float64) []S {
 	return out
 }
 
-func floatBits[S constraints.Float]() int {
-	var z S
-	if _, ok := any(z).(float32); ok {
-		return 32
-	}
-	return 64
-}
+func floatBits[S constraints.Float]() int { return int(unsafe.Sizeof(S(0))) * 8 }
 
 // floatFixSweep: C08 for one instantiation.
 func floatFixSweep[S constraints.Float, D constraints.Integer](w *numWriter, rng *rand.Rand, fn, sty, dty string,
